@@ -38,6 +38,10 @@ let () =
           (c05_flag flags 5) (List.map c05_event (split_on ',' evs)) in
       if obs = [] then "-" else String.concat "," (List.map c05_obs obs)
     | _ -> "?args");
+  register "c05_window" (function [w; cs] ->
+      let (shown, n) = FilterDet.c05_window (bool_of w) (chunks_of cs) in
+      hex_of_chunks shown ^ "|" ^ string_of_int (int_of_nat n)
+    | _ -> "?args");
   register "c05_osc52" (function [cs] ->
       let (seq, clips) = List.fold_left (fun (seq, acc) c ->
           let (seq', cl) = detect_osc52 seq c in (seq', acc @ cl)) (None, []) (chunks_of cs) in
